@@ -22,6 +22,8 @@ class FakeBroker:
         self.epoch = 0          # bumped at every outage: old connections die
         self.subs = []          # live subscriptions
         self.waiters = []
+        self.publish_failures = 0   # next N publish() calls fail (only the
+        #                             publishing connection hiccups)
 
     def outage(self, on):
         self.down = on
@@ -77,6 +79,10 @@ class FakeRedisModule:
 
             def publish(self, channel, data):
                 broker.check(self.epoch)
+                if broker.publish_failures > 0:
+                    broker.publish_failures -= 1
+                    broker.world.rec.count('fault.redis_publish_error')
+                    raise RedisError('publish failed')
                 broker.publish(channel, data)
                 return 1
 
@@ -124,6 +130,10 @@ class FakeAioRedisModule:
 
             async def publish(self, channel, data):
                 broker.check(self.epoch)
+                if broker.publish_failures > 0:
+                    broker.publish_failures -= 1
+                    broker.world.rec.count('fault.redis_publish_error')
+                    raise RedisError('publish failed')
                 broker.publish(channel, data)
                 return 1
 
